@@ -28,7 +28,7 @@ package udphop
 //@   when hopPrivOpen && payload(v) == hopPriv
 //@   update sockOpen = upd(sockOpen, obj, payload(v), true)
 //@   update hopPrivOpen = false
-//@ monitor udpHopPacketConn.connMutex: closed, prevConn, currentConn, addrIndex
+//@ monitor udpHopPacketConn.connMutex: closed, prevConn, currentConn, addrIndex, ghost sockOpen
 //@ hook call PacketConn.Close(c) in (*udpHopPacketConn).hop | (*udpHopPacketConn).Close
 //@   update sockOpen = upd(sockOpen, u, payload(c), false)
 //@   update hopPrivOpen = hopPrivOpen && payload(c) != hopPriv
